@@ -6,6 +6,7 @@ import (
 	"bufio"
 	"fmt"
 	"io"
+	"os"
 	osexec "os/exec"
 	"strconv"
 	"strings"
@@ -44,6 +45,7 @@ type Solver struct {
 	stats   SolverStats
 	timeout int // ms per query
 	log     io.Writer
+	lastAssert string
 	seq     int
 	dead    bool
 }
@@ -203,6 +205,9 @@ func (s *Solver) Assert(t *Term) {
 		panic("Assert: non-Bool term")
 	}
 	s.define(t)
+	if os.Getenv("GOSYM_SLOW") != "" {
+		s.lastAssert = t.String()
+	}
 	s.send(fmt.Sprintf("(assert %s)", t.ref()))
 }
 
